@@ -6,6 +6,11 @@ import os
 VERIF = os.path.dirname(os.path.dirname(os.path.abspath(__file__)))
 
 CLAIMED = {
+    "C14": dict(
+        engine="store", category="model_checking", design_ref="DESIGN.md §7 C14",
+        technique="TLA+ specs LpgStore.tla (every accessor defined from one abstract graph) and MC_LpgIndex.tla (incremental label/property index mechanism = definitions, model-checked by TLC); recorded mutator histories of the real LpgStore validated by TLC with all access paths after every call",
+        text="TLC checks that the incrementally maintained label and property indexes equal their definitions over all histories of the bounded model; on the real store, after every call of random histories (node/edge create and delete incl. self-loops, parallel edges and hub nodes with more than 64 incident edges, set/remove property, add/remove label, create/drop index, statistics refresh) the answers of all access paths are validated against the single abstract graph: label lookup, scans, counts, point lookups, out/in neighbour lists and degrees, index vs scan property lookup, range lookup, min/max pruning as an implication.",
+        note="Non-transactional API, single thread. The store without backward adjacency cannot be built through the public API. Adjacency compaction entry points are not called by LpgStore."),
     "C13": dict(
         engine="store", category="model_checking", design_ref="DESIGN.md §7 C13",
         technique="TLA+ specs RdfStore.tla (set semantics of every lookup) and MC_RdfIndex.tla (index mechanism mirrors the set, model-checked by TLC); recorded histories of the real RdfStore validated by TLC with the full projection after every call",
@@ -51,8 +56,8 @@ CLAIMED = {
 REASON_PENDING = "not claimed yet in this round: specification and conformance binding for this property are designed (DESIGN.md §7) but not built; no check is registered rather than an unsound one"
 
 ENGINES = [
-    dict(name="store", path="spec/store", serves_properties=["C13"],
-         kind_free_text="TLA+ RdfStore.tla / MC_RdfIndex.tla (+Trace_RdfStore) checked by TLC; harness `gv rdf`"),
+    dict(name="store", path="spec/store", serves_properties=["C13", "C14"],
+         kind_free_text="TLA+ RdfStore.tla / MC_RdfIndex.tla / LpgStore.tla / MC_LpgIndex.tla (+Trace_*) checked by TLC; harness `gv rdf`, `gv lpg`"),
     dict(name="conc", path="spec/conc", serves_properties=["C20", "C03"],
          kind_free_text="TLA+ per-critical-section models checked by TLC; harness `gv conc` (yield-point controller, schedule enumeration) and `gv txstress`"),
     dict(name="wal", path="spec/wal", serves_properties=["C05", "C06"],
